@@ -250,3 +250,59 @@ def replay(case):
     print("implementation:", res)
     print("model expects :", case["expected"])
     return 0 if ok else 1
+
+
+# ---------------------------------------------------------------- Model.check_operator_terms
+def run_ct(case, tb):
+    """case = {"items": [programs], "known": [dof ids]}.  Builds Model(basis, items) with one half-spin basis per
+    known dof and returns (export of model.ham_terms as a list, first-principles verdict).
+    The verdict does not use the Coq model: ham_terms must be exactly the input terms (same objects, same order)
+    whose factor is != 0, the separate call model.check_operator_terms(items) must agree, and nothing may raise
+    when every item is an Op / OpSum on known dofs."""
+    from renormalizer.model import Model
+    from renormalizer.model.basis import BasisHalfSpin
+    vals = []
+    for prog in case["items"]:
+        res, v = run_program(prog, tb)
+        if res["tag"] == "err":
+            return {"tag": "err", "exc": res.get("exc"), "msg": res.get("msg"), "where": "item"}, {"ok": True, "why": "item rejected"}
+        vals.append(v)
+    basis = [BasisHalfSpin(tb.dofs[i]) for i in case["known"]]
+    known = set(tb.dofs[i] for i in case["known"])
+    flat, wellformed = [], True
+    for v in vals:
+        if isinstance(v, Op):
+            flat.append(v)
+        elif isinstance(v, OpSum):
+            flat.extend(v)
+        else:
+            wellformed = False
+    wellformed = wellformed and all(d in known for o in flat for d in o.dofs)
+    try:
+        with warnings.catch_warnings():
+            warnings.simplefilter("error", RuntimeWarning)
+            ham = Model(basis, list(vals)).ham_terms
+            again = Model(basis, []).check_operator_terms(list(vals))
+    except Exception as e:  # noqa: BLE001
+        verdict = {"ok": not wellformed, "why": ("raises %s on well-formed terms: %s" % (type(e).__name__, str(e)[:100])) if wellformed else "malformed input rejected"}
+        return {"tag": "err", "exc": type(e).__name__, "msg": str(e)[:160], "where": "Model"}, verdict
+    if not wellformed:
+        return export(list(ham), tb), {"ok": True, "why": "malformed input accepted"}
+    want = [o for o in flat if o.factor != 0]
+    verdict = {"ok": True, "why": ""}
+    if len(ham) != len(want) or any(a is not b for a, b in zip(ham, want)):
+        dropped = [repr(o) for o in want if not any(o is h for h in ham)]
+        verdict = {"ok": False, "why": "ham_terms is not the list of input terms with factor != 0; wrongly dropped: %s" % dropped[:3]}
+    elif len(again) != len(ham) or any(a is not b for a, b in zip(again, ham)):
+        verdict = {"ok": False, "why": "check_operator_terms(terms) differs from Model(basis, terms).ham_terms"}
+    return export(list(ham), tb), verdict
+
+
+def replay_ct(case):
+    """repro entry point for the check-terms stream: 1 while Model construction drops / alters / rejects terms it
+    must keep, 0 otherwise"""
+    tb = Tables(case["syms"], case["dofs"])
+    res, verdict = run_ct(case, tb)
+    print("ham_terms:", res)
+    print("verdict  :", verdict)
+    return 0 if verdict["ok"] else 1
